@@ -166,3 +166,16 @@ CONFIG["C07"] = {
     "assumptions": COMMON_ASSUMPTIONS + ["the cost bound is not compared with a measured cost here (C03 compares it with C)", "a BitMachine is used for exactly one exec"],
     "counter_floors": {"quick": {"run.ok": 20000, "run.failed": 2000, "bomb.refused": 20}, "thorough": {"run.ok": 500000}},
 }
+
+CONFIG["C12"] = {
+    "budget_s": {"quick": 120, "thorough": 1500},
+    "floor": {"quick": 15000, "thorough": 500000},
+    "rule": ("a case is a type-directed 1->1 program with Core jets and at least one witness node (case nodes put some on unexecuted branches), and for every witness slot a candidate value: "
+             "of the inferred type, too wide (extra component / grown type), too narrow (pruned), unit, same width but another shape, one tag and one padding bit wider, or of a random type. "
+             "Routes: ConstructNode::witness(Some(v)) + finalize_unpruned / finalize_pruned(CoreEnv); Forest::from_program + to_witness_node(map) + finalize_unpruned / finalize_pruned; RedeemNode::decode of valid "
+             "program bytes with the original or random witness bytes. Oracle: the route returns Err, or a RedeemNode in which every witness is_of_type its node's target (structurally re-checked), whose own "
+             "serialisation decodes and re-encodes identically, whose execution has zero out-of-frame accesses and stays within bounds (hooks), and whose prune does not panic and stays well-typed; all-correct "
+             "witnesses must be accepted. No panic anywhere. Non-trivial: every case with >= 1 witness node; distinct: distinct (program, candidates) renderings."),
+    "assumptions": COMMON_ASSUMPTIONS + ["the value-list finaliser (SimpleFinalizer), documented as unchecked, is not driven with wrong types"],
+    "counter_floors": {"quick": {"candidate.TooWide": 3000, "candidate.TooNarrow": 3000, "candidate.SameWidthOtherShape": 3000, "construct+finalize_unpruned.ok": 3000, "witness-map+finalize_unpruned.ok": 3000}, "thorough": {}},
+}
